@@ -326,12 +326,12 @@ var concPatterns = []struct {
 	Pre     []int // executed sequentially before the threads start
 	Threads [][]int
 }{
-	{"disp_vs_unreg", []int{0, 1}, [][]int{{6}, {3}}},              // s0,s1 registered; dispatch m0 || unregister s0
-	{"disp_vs_reg", []int{0}, [][]int{{6}, {1}}},                  // dispatch m0 || register s1
-	{"disp_disp_reg", []int{0}, [][]int{{6}, {7}, {1}}},           // two different messages || register
-	{"disp_then_repeat", []int{0, 1}, [][]int{{6, 6}, {4, 1}}},    // repeat after handled || unregister+register s1
-	{"reg_unreg_disp", []int{}, [][]int{{0, 3}, {6}, {1}}},        // register/unregister s0 || dispatch || register s1
-	{"two_types", []int{0, 2}, [][]int{{6}, {8}, {5}}},            // GET_BLOCK and POSTTX dispatches || unregister s2
+	{"disp_vs_unreg", []int{0, 1}, [][]int{{6}, {3}}},          // s0,s1 registered; dispatch m0 || unregister s0
+	{"disp_vs_reg", []int{0}, [][]int{{6}, {1}}},               // dispatch m0 || register s1
+	{"disp_disp_reg", []int{0}, [][]int{{6}, {7}, {1}}},        // two different messages || register
+	{"disp_then_repeat", []int{0, 1}, [][]int{{6, 6}, {4, 1}}}, // repeat after handled || unregister+register s1
+	{"reg_unreg_disp", []int{}, [][]int{{0, 3}, {6}, {1}}},     // register/unregister s0 || dispatch || register s1
+	{"two_types", []int{0, 2}, [][]int{{6}, {8}, {5}}},         // GET_BLOCK and POSTTX dispatches || unregister s2
 }
 
 func newConc(pi int) func() vsched.Instance {
